@@ -1,5 +1,167 @@
-(* C16 correspondence: the shared path-loop case (Check/PathSMCase.v) with the C16 specification. *)
-Require Export MTX.Model.PathSM MTX.Check.PathSMCase.
-Definition case := pcase.
-Definition mismatch : case -> bool := PathSMCase.mismatch.
-Definition spec_fail : case -> bool := spec_fail_c16.
+(* C16 correspondence.
+   CPath: the shared path-loop case (Check/PathSMCase.v) with the C16 specification: one instance.
+   CName: the life of a path NAME on a real pathManager (Model/C16_Names.v): client requests, reloads of every
+   kind, and tear-downs that the driver holds open (a publisher / reader whose Close() blocks until released)
+   while further requests arrive. *)
+From Coq Require Import List ZArith Bool.
+Require Export MTX.Model.PathSM MTX.Model.C16_Names MTX.Check.PathSMCase.
+Import ListNotations.
+Local Open Scope Z_scope.
+
+(* what the driver does, in the order it did it *)
+Inductive xs :=
+| XS (s : sched)                          (* one scheduler choice of the model *)
+| XTicksUntil (i : Z) (k : Z) (id : Z)    (* instance i tears down until it is INSIDE Close() of publisher id (k = 0) / reader id (k = 1) *)
+| XTicksAll (i : Z).                      (* the held Close() is released; instance i finishes its tear-down *)
+
+(* what the driver sees *)
+Inductive nobs :=
+| OAns (q inst code : Z)     (* request q answered by instance number inst (creation order; -1 when refused): 0 = accepted, else error code *)
+| OPubClosed (p : Z)         (* Publisher.Close() returned *)
+| OReaderClosed (r : Z)      (* Reader.Close() returned *)
+| ONoConf (q : Z)            (* the manager refused q: path not configured *)
+| OGone (q : Z).             (* an instance that is closing / closed answered "terminated" *)
+
+(* per step: events observed during the step (real order), and pm.paths[name] after it:
+   -2 not observed, -1 the manager does not answer (blocked) or has no instance, n >= 0 instance number n *)
+Inductive ncase := NCase (cf : pconf) (live0 : Z) (steps : list (xs * list nobs * Z)).
+
+Inductive case := CPath (c : pcase) | CName (c : ncase).
+
+(* ---- model side -------------------------------------------------------------------------------------- *)
+Definition obs_of (e : nevent) : list nobs :=
+  match e with
+  | NEv i (EAnswer q (AStream _)) => [OAns q i 0]
+  | NEv _ (EAnswer q (AErr c)) => [OAns q (-1) c]    (* the client of a refused request is not told by which instance *)
+  | NEv _ (EPubClosed p) => [OPubClosed p]
+  | NEv _ (EReaderClosed r) => [OReaderClosed r]
+  | NNoConf q => [ONoConf q]
+  | NGone _ q => [OGone q]
+  | _ => []
+  end.
+
+Definition nobs_code (o : nobs) : Z * Z * Z * Z :=
+  match o with
+  | OAns q i c => (1, q, i, c)
+  | OPubClosed p => (2, p, 0, 0)
+  | OReaderClosed r => (3, r, 0, 0)
+  | ONoConf q => (4, q, 0, 0)
+  | OGone q => (5, q, 0, 0)
+  end.
+Definition nobs_eqb (a b : nobs) : bool :=
+  let '(a1, a2, a3, a4) := nobs_code a in let '(b1, b2, b3, b4) := nobs_code b in
+  (a1 =? b1) && (a2 =? b2) && (a3 =? b3) && (a4 =? b4).
+Definition count_obs (o : nobs) (l : list nobs) : nat := length (filter (nobs_eqb o) l).
+(* same events, any order (Go map order of reader closes; concurrent clients) *)
+Definition same_obs (a b : list nobs) : bool :=
+  forallb (fun o => Nat.eqb (count_obs o a) (count_obs o b)) (a ++ b).
+
+Definition next_pend (i : Z) (ns : nstate) : option pevent :=
+  match find (fun x => i_id x =? i) (n_dying ns) with
+  | Some x => hd_error (i_pend x)
+  | None => None
+  end.
+Definition is_gate (k id : Z) (e : pevent) : bool :=
+  match e with
+  | EPubClosed p => (k =? 0) && (p =? id)
+  | EReaderClosed r => (k =? 1) && (r =? id)
+  | _ => false
+  end.
+Fixpoint ticks (fuel : nat) (i : Z) (gate : pevent -> bool) (ns : nstate) (acc : list nevent) : nstate * list nevent :=
+  match fuel with
+  | O => (ns, acc)
+  | S f =>
+      match next_pend i ns with
+      | None => (ns, acc)
+      | Some e =>
+          if gate e then (ns, acc)
+          else let (ns', ev) := nstep wait_always ns (STick i) in ticks f i gate ns' (acc ++ ev)
+      end
+  end.
+Definition xstep (ns : nstate) (x : xs) : nstate * list nevent :=
+  match x with
+  | XS s => nstep wait_always ns s
+  | XTicksUntil i k id => ticks 400 i (is_gate k id) ns []
+  | XTicksAll i => ticks 400 i (fun _ => false) ns []
+  end.
+Definition live_code (ns : nstate) : Z := match n_live ns with Some x => i_id x | None => -1 end.
+
+Fixpoint nrun_cmp (ns : nstate) (steps : list (xs * list nobs * Z)) : bool :=
+  match steps with
+  | [] => true
+  | (x, obs, lv) :: r =>
+      let (ns1, evs) := xstep ns x in
+      same_obs (flat_map obs_of evs) obs && ((lv =? -2) || (lv =? live_code ns1)) && nrun_cmp ns1 r
+  end.
+
+Definition nmismatch (c : ncase) : bool :=
+  match c with
+  | NCase cf l0 steps => negb (((l0 =? -2) || (l0 =? 0)) && nrun_cmp (ninit cf) steps)
+  end.
+
+(* ---- the property on the observations alone --------------------------------------------------------------
+   who occupies which instance: a publisher / reader is attached to instance i from the accepting answer of i
+   until its Close() has returned (or it removed itself).  At no moment may two instances of the name be
+   occupied, nor two publishers be attached to the name; and when pm.paths[name] is seen to be instance j,
+   nobody may still occupy another instance.  (Within one instance "at most one publisher" is the CPath spec;
+   it is re-stated here for the name.) *)
+Inductive who := WPub (p : Z) | WReader (r : Z).
+Definition who_eqb (a b : who) : bool :=
+  match a, b with WPub p, WPub p' => p =? p' | WReader r, WReader r' => r =? r' | _, _ => false end.
+Definition is_pub (w : who) : bool := match w with WPub _ => true | _ => false end.
+
+Definition req_of (x : xs) : list (Z * who) :=
+  match x with
+  | XS (SHandle (MReq (AddPublisher q p _))) | XS (SDirect _ (AddPublisher q p _)) => [(q, WPub p)]
+  | XS (SHandle (MReq (AddReader q r))) | XS (SDirect _ (AddReader q r)) => [(q, WReader r)]
+  | _ => []
+  end.
+Fixpoint lookup_who (q : Z) (m : list (Z * who)) : option who :=
+  match m with [] => None | (q', w) :: r => if q =? q' then Some w else lookup_who q r end.
+
+Definition occ := list (Z * who).
+Definition drop_who (w : who) (o : occ) : occ := filter (fun e => negb (who_eqb w (snd e))) o.
+Definition other_inst (i : Z) (o : occ) : bool := existsb (fun e => negb (fst e =? i)) o.
+Definition has_pub (o : occ) : bool := existsb (fun e => is_pub (snd e)) o.
+
+(* one observed event; None = violation *)
+Definition occ_event (qm : list (Z * who)) (o : occ) (e : nobs) : option occ :=
+  match e with
+  | OAns q i 0 =>
+      match lookup_who q qm with
+      | Some w =>
+          if other_inst i o then None                       (* another instance is still occupied *)
+          else if is_pub w && has_pub o then None             (* a second publisher on the name *)
+          else Some ((i, w) :: drop_who w o)
+      | None => Some o
+      end
+  | OPubClosed p => Some (drop_who (WPub p) o)
+  | OReaderClosed r => Some (drop_who (WReader r) o)
+  | _ => Some o
+  end.
+Definition occ_after_op (x : xs) (o : occ) : occ :=
+  match x with
+  | XS (SDirect _ (RemovePublisher p)) => drop_who (WPub p) o
+  | XS (SDirect _ (RemoveReader r)) => drop_who (WReader r) o
+  | _ => o
+  end.
+Definition occ_step (qm : list (Z * who)) (o : occ) (st : xs * list nobs * Z) : option occ :=
+  let '(x, obs, lv) := st in
+  match mrun (occ_event qm) o obs with
+  | None => None
+  | Some o1 =>
+      let o2 := occ_after_op x o1 in
+      if (0 <=? lv) && other_inst lv o2 then None else Some o2
+  end.
+
+Definition nspec_fail (c : ncase) : bool :=
+  match c with
+  | NCase cf l0 steps =>
+      let qm := flat_map (fun st => req_of (fst (fst st))) steps in
+      match mrun (occ_step qm) [] steps with Some _ => false | None => true end
+  end.
+
+Definition mismatch (c : case) : bool :=
+  match c with CPath p => PathSMCase.mismatch p | CName n => nmismatch n end.
+Definition spec_fail (c : case) : bool :=
+  match c with CPath p => spec_fail_c16 p | CName n => nspec_fail n end.
